@@ -12,7 +12,7 @@
 #include <string>
 
 using namespace sim;
-namespace sim { void setProcessorCount(int n); uint64_t condOpsAfterDestroy(); uint64_t threadsCreated(); uint64_t threadsNotJoined(); }
+namespace sim { void setProcessorCount(int n); uint64_t condOpsAfterDestroy(); uint64_t threadsCreated(); uint64_t threadsNotJoined(); uint64_t threadCreateFailureCount(); }
 
 typedef Future<void>::Private FP;
 
@@ -52,6 +52,9 @@ static void body(int id, const String& s) {
 static void fv(int id, String s) { body(id, s); }
 static int fi(int id, String s) { body(id, s); return id * 7 + 1; }
 static String fs(int id, String s) { body(id, s); char b[32]; snprintf(b, sizeof b, "r%d", id); return String(b, strlen(b)); }
+static void fvr(int id, const String& s) { body(id, s); }          /* reference parameters: the call must still work on its own copy of what was given to start() */
+static int fir(int id, const String& s) { body(id, s); return id * 7 + 1; }
+static String fsr(int id, const String& s) { body(id, s); char b[32]; snprintf(b, sizeof b, "r%d", id); return String(b, strlen(b)); }
 static void fv0() {}
 struct Target { int base; int mi(int id) { body(id, String("c", 1) + String::fromInt(id)); return base + id; } void mv(int id) { body(id, String("c", 1) + String::fromInt(id)); } };
 
@@ -96,6 +99,11 @@ static void client(void* a) {
       { NoPreempt np; F.crossAtStart = F.crossCount; F.crossInflightAtStart = F.crossCount != F.crossDone; }
       char an[32]; snprintf(an, sizeof an, "c%d", id); String arg(an, strlen(an));
       bool member = (op.a[3] % 3) == 0;
+      if (!member && (op.a[3] % 5) == 1) {   /* the function takes its argument by reference, and the caller's object is gone as soon as start() has returned */
+        String* given = new String(an, strlen(an)); given->append(' '); given->resize(given->length() - 1);   /* (a counted payload of its own) */
+        switch (F.type) { case 0: ((Future<void>*)F.obj)->start(&fvr, id, *given); break; case 1: ((Future<int>*)F.obj)->start(&fir, id, *given); break; default: ((Future<String>*)F.obj)->start(&fsr, id, *given); break; }
+        given->clear(); given->append("overwritten by the caller", 25); delete given; probe("start_with_reference_parameter");
+      } else
       switch (F.type) {
       case 0: if (member) ((Future<void>*)F.obj)->start(*C.target, &Target::mv, id); else ((Future<void>*)F.obj)->start(&fv, id, arg); break;
       case 1: if (member) ((Future<int>*)F.obj)->start(*C.target, &Target::mi, id); else ((Future<int>*)F.obj)->start(&fi, id, arg); break;
@@ -154,6 +162,7 @@ static void mainTask(void*) {
 static bool quiescence() {
   char ps[300]; poolState(ps, sizeof ps);
   if (C.phase == 1) { probe("pool_teardown_hang"); return true; }   // not part of the C10 verdict (DESIGN.md §4 C10)
+  if (threadCreateFailureCount()) { probe("stuck_after_thread_creation_failure"); return true; }   /* the system refused to create a worker: the pool counts it nevertheless and the queued call may never run - resource exhaustion is outside the statement; only the safety clauses are judged in such runs */
   // a client (or main in a destructor) is blocked for ever
   std::string who; bool inStart = false, inJoin = false, inConv = false, inDtor = false;
   for (int t = 1; t <= numTasks(); ++t) if (isBlocked(t) && taskNote(t)[0]) {
@@ -188,6 +197,7 @@ static void generate(RunSpec& s, int tier) {
   s.knobs["mem_switch_log2"] = memk[r(5)]; s.knobs["sync_switch_log2"] = synck[r(4)];
   static const int sp[] = {0, 0, 3, 15}; s.knobs["spurious_pct"] = sp[r(4)];
   static const int fz[] = {0, 0, 25, 60}; s.knobs["freeze_pct"] = fz[r(4)];
+  s.knobs["thread_fail_pct"] = r(8) == 0 ? 30 : 0;   /* the system refuses to create some worker threads (EAGAIN) */
   if (churn && r(2)) { s.knobs["freeze_pct"] = 60; s.knobs["sync_switch_log2"] = 1 + r(2); s.knobs["mem_switch_log2"] = 255; }   /* half of the churn plans: pre-emption at calls only, pre-empted clients stay away long (several clients parked inside run() at once) */
   bool sleepy = r(3) == 0;
   for (int c = 0; c < nc; ++c) {
@@ -210,7 +220,7 @@ static void generate(RunSpec& s, int tier) {
 static Result execute(const RunSpec& s, bool keepLog) {
   Config cfg;
   cfg.mem_switch_log2 = (int)simdrv::knob(s, "mem_switch_log2", 6); cfg.sync_switch_log2 = (int)simdrv::knob(s, "sync_switch_log2", 2);
-  cfg.rate[K_SPURIOUS] = simdrv::knob(s, "spurious_pct", 0) / 100.0; cfg.freeze_pct = (int)simdrv::knob(s, "freeze_pct", 0);
+  cfg.rate[K_SPURIOUS] = simdrv::knob(s, "spurious_pct", 0) / 100.0; cfg.rate[K_THREADFAIL] = simdrv::knob(s, "thread_fail_pct", 0) / 100.0; cfg.freeze_pct = (int)simdrv::knob(s, "freeze_pct", 0);
   cfg.step_budget = 1500000; cfg.tail_budget_min = 400000; cfg.keep_log = keepLog;
   setProcessorCount((int)simdrv::knob(s, "nproc", 4));
   memset(&C, 0, sizeof C); C.spec = &s; C.nclients = (int)simdrv::knob(s, "clients", 1); if (C.nclients < 1) C.nclients = 1; if (C.nclients > 4) C.nclients = 4;
@@ -227,7 +237,7 @@ static Result execute(const RunSpec& s, bool keepLog) {
     bool sleeper = false; std::string who;
     for (int t = 1; t <= numTasks(); ++t) { if (taskFinished(t)) continue; if (isBlocked(t) && blockedDeadline(t) >= 0) sleeper = true; const char* n = taskNote(t); if (n[0] && (strstr(n, ":start") || strstr(n, ":join") || strstr(n, ":convert") || strstr(n, "~Future") || strstr(n, ":recreate"))) { who += n; who += isBlocked(t) ? " (blocked); " : " (running); "; } }
     if (getenv("SIM_DEBUG")) { fprintf(stderr, "TAILEXH seed=%llu steps=%llu phase=%d\n", (unsigned long long)s.seed, (unsigned long long)r.steps, C.phase); for (int t = 1; t <= numTasks(); ++t) fprintf(stderr, "  task %d %s finished=%d blocked=%d what=%s note=%s\n", t, taskName(t), (int)taskFinished(t), (int)isBlocked(t), blockedWhat(t), taskNote(t)); }
-    if (C.phase == 0 && !sleeper && !who.empty()) { r.violated = true; r.cls = "C10/no_progress"; r.detail = "the step budget of the fair fault-free tail ran out, no task waits for a deadline, every started function has returned, and still unfinished: " + who; }
+    if (C.phase == 0 && !sleeper && !who.empty() && !threadCreateFailureCount()) { r.violated = true; r.cls = "C10/no_progress"; r.detail = "the step budget of the fair fault-free tail ran out, no task waits for a deadline, every started function has returned, and still unfinished: " + who; }
     else r.probes["slow_run_no_verdict"]++;
   }
   r.probes[simdrv::knob(s, "pool_mode", 0) ? "pool_precreated" : "pool_lazy"]++;
